@@ -59,6 +59,9 @@ m("c03-zip-step-by-5", S + "mod.rs", ["    let mut offset = 0;\n    for byte in 
 n("n-c10-rot-from-be-bytes", S + "navigation.rs", "match data as i8 {", "match i8::from_be_bytes([data]) {", ["C10", "C04", "C01"])
 n("n-c15-dgnss-alloc-collect", S + "dgnss_broadcast_binary_message.rs", "        let data_owned = data.0.into();\n", "        let data_owned: CorrectionData = data.0.iter().copied().collect();\n", ["C15", "C18", "C01", "C04"])
 m("c18-dgnss-collect-all-configs", S + "dgnss_broadcast_binary_message.rs", "        #[cfg(any(feature = \"std\", feature = \"alloc\"))]\n        let data_owned = data.0.into();\n        #[cfg(all(not(feature = \"std\"), not(feature = \"alloc\")))]\n        let data_owned = data.0.try_into().map_err(|_| {\n            nom::Err::Failure(nom::error::Error::new(\n                data,\n                nom::error::ErrorKind::TooLarge,\n            ))\n        })?;\n", "        let data_owned: CorrectionData = data.0.iter().copied().collect();\n", ["C18", "C01"])
+m("c05-extend-inside-debug-assert", SS, "        self.data\n            .extend_from_slice(&ais_sentence.data)\n            .map_err(|_| Error::from(\"Vec is full on extend_from_slice\"))?;\n", "        {\n            if ais_sentence.data.len() + self.data.len() > self.data.capacity() {\n                return Err(Error::from(\"Vec is full on extend_from_slice\"));\n            }\n            debug_assert!(self.data.extend_from_slice(&ais_sentence.data).is_ok());\n        }\n", ["C05", "C18"])
+m("c05-alloc-extend-inside-debug-assert", SS, "        self.data.extend_from_slice(&ais_sentence.data);\n", "        debug_assert!({ self.data.extend_from_slice(&ais_sentence.data); true });\n", ["C05", "C06"])
+n("n-c05-pure-debug-assert", SS, "        // Only a fragment whose payload has been stored advances the group\n", "        debug_assert!(ais_sentence.num_fragments != 1 || ais_sentence.fragment_number <= 255);\n", ["C05", "C06", "C17", "C01", "C18"])
 m("c12-reverse-54-55", S + "types.rs", "AntiPollutionEquipment => 54,", "AntiPollutionEquipment => 55,", ["C12"])
 m("c12-epfd-15", S + "types.rs", "            15 => None,\n            _ => Some(Self::Unknown(data)),", "            _ => Some(Self::Unknown(data)),", ["C12"])
 m("c12-navaid-swap", S + "aid_to_navigation_report.rs", "9 => Some(Self::BeaconCardinalN),\n            10 => Some(Self::BeaconCardinalE),", "9 => Some(Self::BeaconCardinalE),\n            10 => Some(Self::BeaconCardinalN),", ["C12"])
